@@ -377,6 +377,11 @@ class Project:
             r = self.resolve(m, e)
             if isinstance(r, tuple) and r[0] == "const":
                 return self.const_value(r[1], r[2])
+            if isinstance(r, tuple) and r[0] == "external" and r[1].startswith("string.") and r[1].count(".") == 1:
+                import string as _s           # data constants of the standard library (string.punctuation, string.digits ...)
+                v = getattr(_s, r[1].split(".")[1], None)
+                if isinstance(v, str):
+                    return v
             raise KeyError(U(e))
         if isinstance(e, ast.BinOp) and isinstance(e.op, ast.Add):
             return self.fold(m, e.left) + self.fold(m, e.right)
@@ -401,6 +406,28 @@ class Project:
             return sep.join(self.fold(m, e.args[0]))
         if isinstance(e, ast.UnaryOp) and isinstance(e.op, ast.USub):
             return -self.fold(m, e.operand)
+        # pure builtin constructors / conversions applied to foldable arguments
+        if isinstance(e, ast.Call) and isinstance(e.func, ast.Name) and not e.keywords and e.func.id in (
+                "set", "frozenset", "tuple", "list", "sorted", "chr", "ord", "str", "len", "range", "dict"):
+            args = [self.fold(m, a) for a in e.args]
+            try:
+                v = {"set": set, "frozenset": frozenset, "tuple": tuple, "list": list, "sorted": sorted, "chr": chr, "ord": ord,
+                     "str": str, "len": len, "range": range, "dict": dict}[e.func.id](*args)
+            except Exception:
+                raise KeyError(U(e))
+            return list(v) if isinstance(v, range) else v
+        if isinstance(e, (ast.SetComp, ast.ListComp, ast.GeneratorExp)) and len(e.generators) == 1 and not e.generators[0].ifs \
+                and isinstance(e.generators[0].target, ast.Name):
+            var = e.generators[0].target.id
+            items = self.fold(m, e.generators[0].iter)
+            out_items = []
+            import copy
+            for it in items:
+                class S(ast.NodeTransformer):
+                    def visit_Name(self, n: ast.Name):
+                        return ast.copy_location(ast.Constant(value=it), n) if n.id == var else n
+                out_items.append(self.fold(m, S().visit(copy.deepcopy(e.elt))))
+            return set(out_items) if isinstance(e, ast.SetComp) else out_items
         raise KeyError(U(e))
 
     def regex_constants(self) -> list[tuple[Module, str, str, int, ast.AST]]:
@@ -511,7 +538,15 @@ class Registries:
             m = p.module(rel)
             d = m.defs.get(var)
             val = getattr(d, "value", None)
-            if not isinstance(val, ast.List):
+            as_dict = isinstance(val, ast.Dict)
+            if as_dict and all(isinstance(k, ast.Constant) for k in val.keys):
+                # an insertion-ordered {name: fn} (or {name: (fn, alt)}) table, pushed with `for name, x in table.items()`
+                elts = []
+                for k, v in zip(val.keys, val.values):
+                    parts = [k] + (list(v.elts) if isinstance(v, ast.Tuple) else [v])
+                    elts.append(ast.Tuple(elts=parts, ctx=ast.Load()))
+                val = ast.List(elts=elts, ctx=ast.Load())
+            if not isinstance(val, (ast.List, ast.Tuple)):
                 raise AnchorError(f"{rel}: rule table {var} is not a list literal")
             regs = []
             for i, e in enumerate(val.elts):
@@ -537,7 +572,10 @@ class Registries:
         if init is None:
             raise AnchorError(f"{cls}.__init__ not found")
         for s in ast.walk(init.node):
-            if isinstance(s, ast.For) and isinstance(s.iter, ast.Name) and s.iter.id == var:
+            it = s.iter if isinstance(s, ast.For) else None
+            if isinstance(it, ast.Call) and isinstance(it.func, ast.Attribute) and it.func.attr == "items" and not it.args:
+                it = it.func.value
+            if isinstance(s, ast.For) and isinstance(it, ast.Name) and it.id == var:
                 calls = [c for c in ast.walk(s) if isinstance(c, ast.Call) and U(c.func) == f"self.{attr}.push"]
                 if len(calls) == 1 and len(s.body) == 1:
                     tg = [n.id for n in ast.walk(s.target) if isinstance(n, ast.Name)]
